@@ -8,7 +8,7 @@ CONSTANTS
   Uns = {"paren", "attrsum", "uminus"}
   Funcs <- F_all
   Groups <- G_all
-  MaxTok = 7
+  MaxTok = 6
   FxAll = TRUE
 INVARIANTS Refines
 CHECK_DEADLOCK FALSE
